@@ -2,7 +2,9 @@
 # usage: vx/confirm_seed.sh <prop> <k> [features]   -- confirms agent mutation k of property <prop> in its worktree /tmp/wt/<prop>
 # and stores it under /verif/seeded/<prop>-m<k>/ with meta.json
 P=$1; K=$2; FEAT=${3:-}
-WT=/tmp/wt/$P; OUT=/tmp/wt/$P.out; DST=/verif/seeded/$P-m$K
+# round 2: SUFFIX=b uses worktree /tmp/wt/<prop>b and stores mutation k as seeded/<prop>-m<k+KOFF>
+SUFFIX=${SUFFIX:-}; KOFF=${KOFF:-0}; KD=$((K+KOFF))
+WT=/tmp/wt/$P$SUFFIX; OUT=/tmp/wt/$P$SUFFIX.out; DST=/verif/seeded/$P-m$KD
 cd $WT || exit 2
 git checkout -q -- . ; git clean -fdq tests
 git apply --check $OUT/m$K.diff || { echo "diff does not apply"; exit 2; }
@@ -20,7 +22,7 @@ S2A=$(cargo test --offline --all-features --test zz_seed_demo 2>&1 | grep -E "^t
 rm -f tests/zz_seed_demo.rs
 mkdir -p $DST
 cp $OUT/m$K.diff $DST/patch.diff; cp $OUT/m${K}_demo.rs $DST/demo.rs; cp $OUT/m$K.txt $DST/agent_notes.txt
-python3 - "$P" "$K" "$S1" "$SA" "$S2" "$S2A" <<'PY'
+python3 - "$P" "$KD" "$S1" "$SA" "$S2" "$S2A" <<'PY'
 import json,sys,re
 P,K,S1,SA,S2,S2A=sys.argv[1:7]
 def parse(s):
